@@ -263,6 +263,80 @@ where
 
 const FILL: f64 = -777.015625;
 
+/// The mutable accessors of one container (Containers.tla SetOneOK, ApplyMutWith): checked
+/// get_mut, the mutable contiguous view, apply_mut_with.  `vals` is the logical content.
+fn mut_accessors<'a, V: Vec1Mut<'a, f64>>(v: &mut V, vals: &[f64], contiguous: bool) -> Result<(), String> {
+    let r = catch(move || -> Result<(), String> {
+        let n = vals.len();
+        let mut model: Vec<f64> = vals.to_vec();
+        let same = |v: &V, model: &[f64], what: &str| -> Result<(), String> {
+            let got: Vec<u64> = (0..model.len()).map(|i| v.get(i).map(bits).unwrap_or(1)).collect();
+            let want: Vec<u64> = model.iter().map(|x| bits(*x)).collect();
+            if got == want && v.len() == model.len() { Ok(()) } else { Err(format!("after {what} the container reads {got:?}, the logical sequence is {want:?}")) }
+        };
+        for i in n..n + 2 {
+            if v.get_mut(i).is_some() {
+                return Err(format!("get_mut({i}) is present beyond the length {n}"));
+            }
+        }
+        for i in 0..n {
+            match v.get_mut(i) {
+                None => return Err(format!("get_mut({i}) is absent inside the sequence")),
+                Some(slot) => {
+                    if bits(*slot) != bits(model[i]) {
+                        return Err(format!("get_mut({i}) points at another element"));
+                    }
+                    *slot = 5000.0 + i as f64;
+                    model[i] = 5000.0 + i as f64;
+                },
+            }
+            same(v, &model, &format!("an assignment through get_mut({i})"))?;
+        }
+        match v.try_as_slice_mut() {
+            None => {},
+            Some(sl) => {
+                if !contiguous && n > 1 {
+                    let g: Vec<u64> = sl.iter().map(|x| bits(*x)).collect();
+                    if g != model.iter().map(|x| bits(*x)).collect::<Vec<_>>() {
+                        return Err("try_as_slice_mut() offers memory that is not the logical sequence".into());
+                    }
+                }
+                if sl.len() != n {
+                    return Err(format!("try_as_slice_mut() has {} elements, the sequence {n}", sl.len()));
+                }
+                for (k, x) in sl.iter_mut().enumerate() {
+                    if bits(*x) != bits(model[k]) {
+                        return Err(format!("try_as_slice_mut()[{k}] is not logical element {k}"));
+                    }
+                    *x = 7000.0 + k as f64;
+                    model[k] = 7000.0 + k as f64;
+                }
+            },
+        }
+        same(v, &model, "writing through try_as_slice_mut()")?;
+        let other: Vec<f64> = (0..n).map(|i| 0.5 + i as f64).collect();
+        match v.apply_mut_with(&other, |a: &mut f64, b: f64| *a = *a * 2.0 + b) {
+            Err(e) => return Err(format!("apply_mut_with rejected an operand of equal length: {e}")),
+            Ok(()) => {
+                for i in 0..n {
+                    model[i] = model[i] * 2.0 + other[i];
+                }
+            },
+        }
+        same(v, &model, "apply_mut_with")?;
+        let longer: Vec<f64> = (0..n + 1).map(|i| i as f64).collect();
+        if v.apply_mut_with(&longer, |a: &mut f64, b: f64| *a += b).is_ok() {
+            return Err("apply_mut_with accepted an operand of another length".into());
+        }
+        same(v, &model, "a rejected apply_mut_with")?;
+        Ok(())
+    });
+    match r {
+        Ok(x) => x,
+        Err(p) => Err(format!("panicked: {p}")),
+    }
+}
+
 /// The representation as a place results are WRITTEN to (Containers.tla, WriteCell): a
 /// caller-supplied ring with this capacity and head, filled through the `*_to` twins.
 fn out_as_ring(vals: &Vec<f64>, cap: usize, head: usize) -> Result<(), String> {
@@ -420,6 +494,8 @@ fn replay(args: &Args) {
             "vec" => {
                 cx.judge("Vec<f64>", "accessors", accessors::<f64, _>(&vals, &lbits, Some(true)));
                 cx.judge("Vec<f64>", "outputs", out_matrix::<f64, _>(&vals));
+                cx.judge("Vec<f64>", "mutable accessors", mut_accessors(&mut vals.clone(), &vals, true));
+                cx.judge("Array1<f64>", "mutable accessors", mut_accessors(&mut Array1::from_vec(vals.clone()), &vals, true));
                 let sl: &[f64] = &vals;
                 cx.judge("[f64]", "accessors", accessors::<f64, [f64]>(sl, &lbits, Some(true)));
                 let arc = Arc::new(vals.clone());
@@ -466,6 +542,7 @@ fn replay(args: &Args) {
                 cx.compare(&cell, battery_f64(&d), true);
                 cx.judge(&cell, "outputs", out_matrix::<f64, _>(&d));
                 cx.judge(&format!("Vec<f64>->{cell} as caller buffer"), "written", out_as_ring(&vals, cap, head));
+                cx.judge(&cell, "mutable accessors", mut_accessors(&mut d.clone(), &vals, !wrapped));
                 let arc = Arc::new(d.clone());
                 cx.compare(&format!("Arc<{cell}>"), battery::<f64, _>(&arc), false);
                 // (the option view is not offered for VecDeque: its slice type is not iterable as TIter)
@@ -496,6 +573,19 @@ fn replay(args: &Args) {
                 cx.compare(&cell, battery_f64(&view), true);
                 cx.judge(&cell, "outputs", out_matrix::<f64, _>(&view));
                 cx.judge(&format!("Vec<f64>->ArrayViewMut1<f64>(step {step}) as caller buffer"), "written", out_as_view(&vals, bn, off, step));
+                {
+                    let mut arr2 = arr.clone();
+                    let mut vm = if n == 0 {
+                        arr2.slice_mut(s![0..0])
+                    } else if step > 0 {
+                        let end = off + (n as isize - 1) * step + 1;
+                        arr2.slice_mut(s![off..end;step])
+                    } else {
+                        let lo = off + (n as isize - 1) * step;
+                        arr2.slice_mut(s![lo..off + 1;step])
+                    };
+                    cx.judge(&format!("ArrayViewMut1<f64>(step {step})"), "mutable accessors", mut_accessors(&mut vm, &vals, contiguous));
+                }
                 if step == 1 {
                     let owned = view.to_owned();
                     cx.judge("Array1<f64>", "accessors", accessors::<f64, _>(&owned, &lbits, Some(true)));
